@@ -174,6 +174,11 @@ def run(P, rep, tier):
                           % (X, ', '.join(sorted(u[0] for u in bad)), ', '.join(sorted(u[1] for u in bad))), path=[R.content_fn.short])
         else:
             rep.ok(r4, X, sorted(u[0] for u in ue))
+        du = res[X]['decode_unit']
+        if du not in (['whole content'], []):
+            rep.violation(r4, 'decode-unit:%s' % X, R.content_fn.loc(), 'section %s is decoded %s: the byte order mark of BOM-emitting codecs is '
+                          'honoured / consumed for the first piece only and wide characters can be cut at a piece boundary'
+                          % (X, ' / '.join(du)), path=[R.content_fn.short])
 
 
 _BOM_CODECS = set(platform_codecs()[1])
